@@ -5,7 +5,7 @@ From Verif Require Import Base.Str Base.Lines Model.Copyright Proofs.CopyrightPr
 From Verif Require Tie.Pin_CRSVersionRegex_src Tie.Pin_ShortCRSVersionRegex_src Tie.Pin_CRSCopyrightYearRegex_src
   Tie.Pin_CRSYearSecRuleVerRegex_src Tie.Pin_CRSVersionComponentSignatureRegex_src
   Tie.Pin_lits_chore_update_copyright_updateRules Tie.Pin_lits_chore_update_copyright_UpdateCopyright
-  Tie.Pin_lits_chore_update_copyright_processFile Tie.Pin_max_scan_token_size.
+  Tie.Pin_lits_chore_update_copyright_processFile Tie.Pin_max_scan_token_size Tie.Pin_scan_limit_copyright_update_rules.
 Open Scope N_scope.
 
 (* all other text is untouched: a line on which none of the five marker patterns can
